@@ -66,10 +66,32 @@ type heliosKey struct {
 }
 
 type helios struct {
-	addr string
-	lb   *loadbalancer.LoadBalancer
-	srv  *http.Server
-	cfg  *config.Config
+	addr   string
+	lb     *loadbalancer.LoadBalancer
+	srv    *http.Server
+	cfg    *config.Config
+	proc   *exec.Cmd     // process mode only
+	exited chan struct{} // closed when the process has ended
+}
+
+func (h *helios) kill() {
+	if h.proc != nil {
+		h.proc.Process.Kill()
+		<-h.exited
+	}
+}
+
+// died: the process ended although nobody asked it to
+func (h *helios) died() bool {
+	if h.proc == nil {
+		return false
+	}
+	select {
+	case <-h.exited:
+		return true
+	default:
+		return false
+	}
 }
 
 var (
@@ -109,6 +131,8 @@ func startHeliosProcess(cfg *config.Config) (*helios, error) {
 	if err := cmd.Start(); err != nil {
 		return nil, err
 	}
+	exited := make(chan struct{})
+	go func() { cmd.Wait(); close(exited) }()
 	procMu.Lock()
 	procs = append(procs, cmd)
 	procMu.Unlock()
@@ -117,9 +141,14 @@ func startHeliosProcess(cfg *config.Config) (*helios, error) {
 		if c, err := net.DialTimeout("tcp", addr, 200*time.Millisecond); err == nil {
 			c.Close()
 			os.Remove(f.Name())
-			return &helios{addr: addr, cfg: cfg}, nil
+			return &helios{addr: addr, cfg: cfg, proc: cmd, exited: exited}, nil
 		}
-		time.Sleep(25 * time.Millisecond)
+		select {
+		case <-exited:
+			os.Remove(f.Name())
+			return nil, fmt.Errorf("helios process exited by itself: %v", cmd.ProcessState)
+		case <-time.After(25 * time.Millisecond):
+		}
 	}
 	return nil, fmt.Errorf("helios process did not start listening on %s", addr)
 }
@@ -129,7 +158,6 @@ func killProcesses() {
 	defer procMu.Unlock()
 	for _, c := range procs {
 		c.Process.Kill()
-		c.Wait()
 	}
 }
 
